@@ -190,6 +190,31 @@ impl Prop for C08 {
     fn id(&self) -> &'static str {
         "C08"
     }
+    fn witness(&self, ctx: &Ctx, f: &crate::findings::Finding) -> Result<bool, Fail> {
+        // witness {"kind":"child_stack","unit":…,"repeat":n,"prefix":…,"suffix":…}: a long chain without bracket nesting,
+        // parsed on the main thread of a child process with the usual 8 MiB stack; still fails iff that child dies
+        if f.witness["kind"].as_str() != Some("child_stack") {
+            return Ok(false);
+        }
+        let w = &f.witness;
+        let text = format!(
+            "{}{}{}",
+            w["prefix"].as_str().unwrap_or(""),
+            w["unit"].as_str().unwrap_or("").repeat(w["repeat"].as_u64().unwrap_or(0) as usize),
+            w["suffix"].as_str().unwrap_or("")
+        );
+        let dir = ctx.scratch.join(format!("witness-{}", f.id));
+        let _ = std::fs::remove_dir_all(&dir);
+        std::fs::create_dir_all(&dir).map_err(|e| Fail::new(format!("harness: {}", e), json!({"infrastructure": true})))?;
+        let spec = json!({"parse_text": text});
+        let res = super::c09::run_child_limited(&spec, &dir, 120, Some(8_000_000)).map_err(|e| Fail::new(format!("harness: {}", e), json!({"infrastructure": true})))?;
+        let _ = std::fs::remove_dir_all(&dir);
+        match res {
+            super::c09::ChildResult::Crashed(_) => Ok(true),
+            super::c09::ChildResult::TimedOut => Err(Fail::new(format!("witness of {} did not finish within 120 s", f.id), json!({"infrastructure": true}))),
+            super::c09::ChildResult::Json(_) => Ok(false),
+        }
+    }
     fn rule(&self) -> String {
         "cases: (soup) token soups over a ~130-word vocabulary of keywords, directives, delimiters and fragments with random caller defines (incl. bodies that do not lex, names that are not \
          identifiers, mismatching identifier fields) and include paths; (mutants) token-level mutants and byte truncations of corpus files, generated Annex A programs, generated preprocessor programs \
